@@ -259,7 +259,7 @@ impl Prop for C17 {
     fn runs(&self, t: Tier) -> u64 {
         match t {
             Tier::Quick => 10_000,
-            Tier::Thorough => 300_000,
+            Tier::Thorough => 3_000_000,
         }
     }
     fn nontrivial_rule(&self) -> &'static str {
